@@ -1,9 +1,12 @@
 #!/bin/bash
-# usage: seedtest.sh <patch.diff> Cxx [Cyy ...]   -- apply a seeded change to /repo, run the quick checks, undo it
+# usage: seedtest.sh <patch.diff> Cxx [Cyy ...]   -- apply a seeded change to /repo, run the quick checks, undo it.
+# The evidence files the checks write while the change is applied describe the changed tree: they are put back
+# (git checkout) afterwards, so that the committed evidence always describes the unchanged tree.
 patch="$1"; shift
 git -C /repo apply "$patch" || { echo "patch does not apply"; exit 2; }
 for p in "$@"; do
   out=$(/verif/check $p --tier quick 2>/dev/null | tail -3)
   echo "== $p: $(echo "$out" | tr '\n' '|' | cut -c1-700)"
 done
-git -C /repo checkout -- . 
+git -C /repo checkout -- .
+for p in "$@"; do git -C /verif checkout -- evidence/$p.json 2>/dev/null; done
